@@ -189,7 +189,7 @@ def parse_anm(data, game):
             magic = tr.take(4)
             if magic != b'THTX': raise LayoutError('bad THTX magic')
             zero = tr.u16(); fmt = tr.u16(); w = tr.u16(); hh = tr.u16(); size = tr.u32()
-            e['thtx'] = {'zero': zero, 'format': fmt, 'width': w, 'height': hh, 'size': size, 'data': tr.take(size)}
+            e['thtx'] = {'zero': zero, 'format': fmt, 'width': w, 'height': hh, 'size': size, 'data_offset': tr.p, 'data': tr.take(size)}
         else:
             e['thtx'] = None
         entries.append(e)
